@@ -465,4 +465,98 @@ structure GridOK {ν : Type} (io : NumIO ν) (g : Grid ν) : Prop where
   words : ∀ r ∈ g.data, ∀ w ∈ r, w < wordBound g.dtype
 
 
+/-! ### edits between exports -/
+
+theorem setFlat_length (rows : List (List Nat)) (idx w : Nat) : (setFlat rows idx w).length = rows.length := by
+  induction rows generalizing idx with
+  | nil => rfl
+  | cons r rs ih =>
+    unfold setFlat
+    split
+    · simp
+    · simp [ih]
+
+theorem setFlat_rows (rows : List (List Nat)) (idx w : Nat) (P : List Nat → Prop)
+    (hP : ∀ r ∈ rows, P r) (hset : ∀ r i, P r → P (r.set i w)) : ∀ r ∈ setFlat rows idx w, P r := by
+  induction rows generalizing idx with
+  | nil => intro r hr; simp [setFlat] at hr
+  | cons r0 rs ih =>
+    have h0 := hP r0 (by simp)
+    have hrs : ∀ r ∈ rs, P r := fun r hr => hP r (by simp [hr])
+    unfold setFlat
+    split
+    · intro r hr
+      rcases List.mem_cons.mp hr with rfl | h
+      · exact hset _ _ h0
+      · exact hrs r h
+    · intro r hr
+      rcases List.mem_cons.mp hr with rfl | h
+      · exact h0
+      · exact ih _ hrs r h
+
+/-- an edit the property's quantifier allows on grid `g`: words of the grid's dtype, arrays of the grid's shape,
+a no-data value representable (and printable) in the dtype; anything for name, comment and georeferencing -/
+def EditOK {ν : Type} (io : NumIO ν) (g : Grid ν) : Edit ν → Prop
+  | .item _ w => w < wordBound g.dtype
+  | .fill w => w < wordBound g.dtype
+  | .data rows => g.lo = none ∧ g.hi = none ∧ (rows.length : Int) = g.nrows ∧ (∀ r ∈ rows, (r.length : Int) = g.ncols) ∧
+      ∀ r ∈ rows, ∀ w ∈ r, w < wordBound g.dtype
+  | .nodata w => w < wordBound g.dtype ∧ NodataPrintable io g.dtype w
+  | _ => True
+
+/-- what edits never change -/
+def SameFrame {ν : Type} (g g' : Grid ν) : Prop :=
+  g'.dtype = g.dtype ∧ g'.nrows = g.nrows ∧ g'.ncols = g.ncols ∧ g'.lo = g.lo ∧ g'.hi = g.hi ∧ g'.parent = g.parent
+
+theorem editOK_frame {ν : Type} (io : NumIO ν) (g g' : Grid ν) (h : SameFrame g g') (e : Edit ν) (he : EditOK io g e) :
+    EditOK io g' e := by
+  obtain ⟨h1, h2, h3, h4, h5, _⟩ := h
+  cases e <;> simp only [EditOK, h1, h2, h3, h4, h5] at he ⊢ <;> exact he
+
+theorem applyEdit_ok {ν : Type} (io : NumIO ν) (g : Grid ν) (hg : GridOK io g) (e : Edit ν) (he : EditOK io g e) :
+    ∃ g', applyEdit g e = .ok g' ∧ GridOK io g' ∧ SameFrame g g' := by
+  obtain ⟨hh, hr, hc, hw⟩ := hg
+  cases e with
+  | item idx w =>
+    refine ⟨_, rfl, ⟨⟨hh.supported, hh.nodata_lt, hh.nrows_nonneg, hh.ncols_nonneg, hh.parent_text, hh.nodata_printable⟩, ?_, ?_, ?_⟩,
+      rfl, rfl, rfl, rfl, rfl, rfl⟩
+    · show ((setFlat g.data idx w).length : Int) = g.nrows
+      rw [setFlat_length]; exact hr
+    · exact setFlat_rows g.data idx w (fun r => (r.length : Int) = g.ncols) hc (by intro r i h; simpa using h)
+    · exact setFlat_rows g.data idx w (fun r => ∀ x ∈ r, x < wordBound g.dtype) hw (by
+        intro r i h x hx
+        rcases List.mem_or_eq_of_mem_set hx with h1 | h1
+        · exact h x h1
+        · rw [h1]; exact he)
+  | fill w =>
+    refine ⟨_, rfl, ⟨⟨hh.supported, hh.nodata_lt, hh.nrows_nonneg, hh.ncols_nonneg, hh.parent_text, hh.nodata_printable⟩, ?_, ?_, ?_⟩,
+      rfl, rfl, rfl, rfl, rfl, rfl⟩
+    · show ((g.data.map fun r => r.map fun _ => w).length : Int) = g.nrows
+      simpa using hr
+    · intro r hrm
+      obtain ⟨r0, h0, rfl⟩ := List.mem_map.mp hrm
+      simpa using hc r0 h0
+    · intro r hrm x hx
+      obtain ⟨r0, h0, rfl⟩ := List.mem_map.mp hrm
+      obtain ⟨_, _, rfl⟩ := List.mem_map.mp hx
+      exact he
+  | data rows =>
+    obtain ⟨e1, e2, e3, e4, e5⟩ := he
+    refine ⟨{ g with data := rows }, setData_id' g rows ⟨e1, e2⟩ e3 e4,
+      ⟨⟨hh.supported, hh.nodata_lt, hh.nrows_nonneg, hh.ncols_nonneg, hh.parent_text, hh.nodata_printable⟩, e3, e4, e5⟩,
+      rfl, rfl, rfl, rfl, rfl, rfl⟩
+  | name s =>
+    exact ⟨_, rfl, ⟨⟨hh.supported, hh.nodata_lt, hh.nrows_nonneg, hh.ncols_nonneg, hh.parent_text, hh.nodata_printable⟩, hr, hc, hw⟩,
+      rfl, rfl, rfl, rfl, rfl, rfl⟩
+  | comment s =>
+    exact ⟨_, rfl, ⟨⟨hh.supported, hh.nodata_lt, hh.nrows_nonneg, hh.ncols_nonneg, hh.parent_text, hh.nodata_printable⟩, hr, hc, hw⟩,
+      rfl, rfl, rfl, rfl, rfl, rfl⟩
+  | georef x y c =>
+    exact ⟨_, rfl, ⟨⟨hh.supported, hh.nodata_lt, hh.nrows_nonneg, hh.ncols_nonneg, hh.parent_text, hh.nodata_printable⟩, hr, hc, hw⟩,
+      rfl, rfl, rfl, rfl, rfl, rfl⟩
+  | nodata w =>
+    exact ⟨_, rfl, ⟨⟨hh.supported, he.1, hh.nrows_nonneg, hh.ncols_nonneg, hh.parent_text, he.2⟩, hr, hc, hw⟩,
+      rfl, rfl, rfl, rfl, rfl, rfl⟩
+
+
 end HydroVerif.C13
